@@ -149,14 +149,48 @@ def regenerate_tables():
         TRANSLATOR_STATUS["error"] = repr(e)
 
 
-def scan_forbidden():
-    """No Admitted/Axiom/... anywhere in the development (comments excluded)."""
+def dep_closure(targets):
+    """.v files (relative to coq/) that the given .vo targets depend on, from coq_makefile's
+    dependency file; None when it cannot be determined (then the whole tree is scanned)."""
+    depfile = os.path.join(COQ, ".Makefile.d")
+    if not os.path.exists(depfile):
+        return None
+    graph = {}
+    try:
+        for line in open(depfile).read().replace("\\\n", " ").split("\n"):
+            if ":" not in line:
+                continue
+            lhs, rhs = line.split(":", 1)
+            outs = [x for x in lhs.split() if x.endswith(".vo")]
+            deps = [x for x in rhs.split() if x.endswith(".vo") and not x.startswith("/")]
+            for o in outs:
+                graph.setdefault(o, set()).update(deps)
+    except OSError:
+        return None
+    seen, todo = set(), list(targets)
+    while todo:
+        t = todo.pop()
+        if t in seen:
+            continue
+        seen.add(t)
+        if t not in graph and not os.path.exists(os.path.join(COQ, t[:-1])):
+            return None
+        todo.extend(graph.get(t, ()))
+    return {t[:-1] for t in seen}
+
+
+def scan_forbidden(only=None):
+    """No Admitted/Axiom/... in the development (comments excluded).  `only`: set of .v paths
+    relative to coq/ (the dependency closure of one property); None = the whole tree, which is
+    what tools/setup.sh checks."""
     bad = []
     for root, _, files in os.walk(COQ):
         for fn in files:
             if not fn.endswith(".v"):
                 continue
             path = os.path.join(root, fn)
+            if only is not None and os.path.relpath(path, COQ) not in only:
+                continue
             txt = open(path).read()
             txt = strip_comments(txt)
             for i, line in enumerate(txt.split("\n"), 1):
@@ -343,7 +377,17 @@ def attributed(prop, case, obs, verdict):
         n = len(inspect.signature(prop.finding_of).parameters)
     except (TypeError, ValueError):
         n = 2
-    return prop.finding_of(case, obs, verdict) if n >= 3 else prop.finding_of(case, obs)
+    try:
+        return prop.finding_of(case, obs, verdict) if n >= 3 else prop.finding_of(case, obs)
+    except Exception:  # an observation the predicate cannot read is never attributed
+        return None
+
+
+def safe_impl(prop, case):
+    try:
+        return prop.run_impl(case)
+    except Exception as e:  # noqa
+        return {"err": "HarnessCrash:" + type(e).__name__}
 
 
 def load_findings(prop_id):
@@ -412,7 +456,8 @@ class Run:
     def write_replay(self, kind, case, obs, extra=None):
         d = os.path.join(VERIF, "replays", self.prop.id)
         os.makedirs(d, exist_ok=True)
-        h = hashlib.sha1(json.dumps([kind, case], sort_keys=True, default=str).encode()).hexdigest()[:10]
+        h = hashlib.sha1(json.dumps([kind, case, (extra or {}).get("obligation")], sort_keys=True,
+                                    default=str).encode()).hexdigest()[:10]
         path = os.path.join(d, "%d-%s-%s.json" % (self.seed, kind, h))
         rec = {"property": self.prop.id, "kind": kind, "case": case, "observation": obs,
                "seed": self.seed, "tier": self.tier}
@@ -474,8 +519,15 @@ def run_check(prop: Prop, tier: str, seed: int) -> int:
         log(line)
 
     # ---- 1. proofs --------------------------------------------------------
-    forb = scan_forbidden()
-    prop.setup(tier, seed)
+    forb = []
+    try:
+        prop.setup(tier, seed)
+    except Exception as e:  # a set-up that no longer works against this tree is reported, not a dead check
+        import traceback
+        path = run.write_replay("harness-crash", None, None,
+                                {"obligation": "plug-in setup", "traceback": traceback.format_exc()[-3000:]})
+        violation(path, "no-failing-input-found")
+        return finish(prop, run, ev, cov, violations, [], [], forb)
     try:
         ok_model, out_model = make(["Common/Shard.vo", prop.corr_module.replace(".", "/") + ".vo"])
         if not ok_model:
@@ -485,6 +537,8 @@ def run_check(prop: Prop, tier: str, seed: int) -> int:
             violation(path, "no-failing-input-found")
             return finish(prop, run, ev, cov, violations, [], [], forb)
         ok_proof, out_proof = make(["Properties/%s.vo" % pid])
+        forb = scan_forbidden(dep_closure(["Properties/%s.vo" % pid,
+                                           prop.corr_module.replace(".", "/") + ".vo"]))
         thms = theorems_of(pid)
         assump = {}
         if ok_proof:
@@ -545,9 +599,12 @@ def run_check(prop: Prop, tier: str, seed: int) -> int:
         for i, (c, o, r) in enumerate(zip(cases, obs, res)):
             k = hashlib.sha1(json.dumps(c, sort_keys=True, default=str).encode()).hexdigest()
             keys.add(k)
-            if prop.nontrivial(c, o):
-                nontriv.add(k)
-            cl = prop.classify(c, o)
+            try:
+                if prop.nontrivial(c, o):
+                    nontriv.add(k)
+                cl = prop.classify(c, o)
+            except Exception:  # odd observation (e.g. a crashed case): still judged below
+                cl = "unclassifiable"
             hist[cl] = hist.get(cl, 0) + 1
             if not r["spec"]:
                 fid = attributed(prop, c, o, r) if r["corr"] else None
@@ -579,7 +636,7 @@ def run_check(prop: Prop, tier: str, seed: int) -> int:
                     return False
                 return not (r["corr"] and attributed(prop, c, o, r) in known)
             small_case = run.shrink(cases[i], still_fails)
-            o2 = prop.run_impl(small_case)
+            o2 = safe_impl(prop, small_case)
             path = run.write_replay("spec-violation", small_case, o2,
                                     {"original_case": cases[i], "model_agrees": res[i]["corr"],
                                      "count_in_run": len(spec_fail)})
@@ -605,7 +662,7 @@ def run_check(prop: Prop, tier: str, seed: int) -> int:
                 def still_fails(c, o, r):
                     return not r["spec"] and not (r["corr"] and attributed(prop, c, o, r) in known)
                 sc = run.shrink(found[0], still_fails)
-                path = run.write_replay("spec-violation", sc, prop.run_impl(sc),
+                path = run.write_replay("spec-violation", sc, safe_impl(prop, sc),
                                         {"original_case": found[0], "found_by": "search after broken obligation"})
                 violation(path)
             else:
@@ -616,7 +673,7 @@ def run_check(prop: Prop, tier: str, seed: int) -> int:
                         return not r["corr"]
                     sc = run.shrink(cases[i], corr_still_fails)
                     path = run.write_replay(
-                        "correspondence-broken", sc, prop.run_impl(sc),
+                        "correspondence-broken", sc, safe_impl(prop, sc),
                         {"obligation": "corr:%s (model %s no longer describes the implementation)" % (pid, prop.corr_module),
                          "original_case": cases[i], "count_in_run": len(corr_fail)})
                     violation(path, "no-failing-input-found")
